@@ -162,7 +162,7 @@ func H_C16_cmp_uint64(s any) {
 func H_C16_cmp_decimal64(s any) {
 	m := s.(*meta.Module)
 	x, lit := vpFloat64(), vpFloat64()
-	vpAssume(x == x && lit == lit)
+	vpAssume(x-x == 0 && lit-lit == 0) // finite: NaN and the infinities are not decimal64 values (C05-decimal64-nan)
 	op := c16Ops[vpChoose(len(c16Ops))]
 	res, err, p := c16Pred(m, "d", val.Decimal64(x), op, lit)
 	vpAssert(!p && err == nil, "evaluates")
